@@ -1,1 +1,306 @@
-//! (reference for rc5: to be written)
+//! RC5-w/r/b after R. L. Rivest, "The RC5 Encryption Algorithm" (FSE 1994, revised March 20, 1997):
+//! section 3 (parameters, notation), 4.1 encryption, 4.2 decryption, 4.3 key expansion
+//! (magic constants P_w = Odd((e-2) 2^w), Q_w = Odd((phi-1) 2^w); L from the key bytes; S; mixing).
+//!
+//! One implementation for every word size w <= 128: words are carried in `u128` and every operation
+//! is reduced mod 2^w explicitly (`add`, `sub`, `rotl`, `rotr` below), so w is an ordinary parameter.
+//! t = 2(r+1) words of expanded key, c = max(1, ceil(8b/w)) words of key (the paper: "c = ceil(max(b,1)/u)",
+//! u = w/8), b = 0 allowed.  Array sizes are const generics supplied by the caller (T = t, C = c) and checked.
+//! Blocks are two w-bit words (A, B); on bytes the paper's convention is little-endian: the first u bytes are A.
+
+/// binary expansion of e - 2 = 0.B7E15162 8AED2A6A BF715880 9CF4F3C7 62E7160F 38B4DA56 ... (first 192 bits)
+pub const E_MINUS_2: [u64; 3] = [0xb7e151628aed2a6a, 0xbf7158809cf4f3c7, 0x62e7160f38b4da56];
+/// binary expansion of phi - 1 = (sqrt(5) - 1)/2 = 0.9E3779B9 7F4A7C15 F39CC060 5CEDC834 1082276B F3A27251 ...
+pub const PHI_MINUS_1: [u64; 3] = [0x9e3779b97f4a7c15, 0xf39cc0605cedc834, 0x1082276bf3a27251];
+
+/// 2^w - 1
+pub const fn mask(w: u32) -> u128 {
+    if w >= 128 { u128::MAX } else { (1u128 << w) - 1 }
+}
+
+/// Odd(x 2^w) for x = 0.f0 f1 f2 (binary fraction): "the odd integer nearest to" x 2^w.
+/// floor(x 2^w) if that is odd, otherwise floor + 1 (x 2^w is irrational, so never an integer and never a tie:
+/// an even floor n has n+1 at distance < 1 and n-1 at distance > 1; an odd floor n is at distance < 1, n+2 at > 1).
+pub const fn odd_scaled(frac: &[u64; 3], w: u32) -> u128 {
+    let top = ((frac[0] as u128) << 64) | frac[1] as u128; // floor(x 2^128)
+    let fl = if w >= 128 { top } else { top >> (128 - w) };
+    if fl & 1 == 1 { fl } else { fl + 1 }
+}
+pub const fn p_w(w: u32) -> u128 { odd_scaled(&E_MINUS_2, w) }
+pub const fn q_w(w: u32) -> u128 { odd_scaled(&PHI_MINUS_1, w) }
+
+/// section 3, primitive operations on w-bit words
+pub const fn add(w: u32, a: u128, b: u128) -> u128 { a.wrapping_add(b) & mask(w) }
+pub const fn sub(w: u32, a: u128, b: u128) -> u128 { a.wrapping_sub(b) & mask(w) }
+/// x <<< y: "only the lg(w) low-order bits of y are used" (w a power of two); in general y mod w
+pub const fn rotl(w: u32, x: u128, y: u128) -> u128 {
+    let n = (y % (w as u128)) as u32;
+    if n == 0 { x & mask(w) } else { ((x << n) | ((x & mask(w)) >> (w - n))) & mask(w) }
+}
+pub const fn rotr(w: u32, x: u128, y: u128) -> u128 {
+    let n = (y % (w as u128)) as u32;
+    if n == 0 { x & mask(w) } else { (((x & mask(w)) >> n) | (x << (w - n))) & mask(w) }
+}
+
+/// c = max(1, ceil(8b/w))
+pub const fn key_words(w: u32, b: usize) -> usize {
+    let u = (w / 8) as usize;
+    let c = (b + u - 1) / u;
+    if c == 0 { 1 } else { c }
+}
+
+/// 4.3, first step: L[0..c-1] from K[0..b-1]:  for i = b-1 downto 0: L[i/u] = (L[i/u] <<< 8) + K[i]
+pub fn key_to_words<const C: usize>(w: u32, key: &[u8]) -> [u128; C] {
+    assert!(w % 8 == 0 && w >= 8 && w <= 128);
+    assert!(key.len() <= 255 && C == key_words(w, key.len()));
+    let u = (w / 8) as usize;
+    let mut l = [0u128; C];
+    let mut i = key.len();
+    while i > 0 {
+        i -= 1;
+        l[i / u] = add(w, rotl(w, l[i / u], 8), key[i] as u128);
+    }
+    l
+}
+
+/// 4.3, second step: S[0] = P_w; S[i] = S[i-1] + Q_w
+pub fn init_s<const T: usize>(w: u32) -> [u128; T] {
+    assert!(T >= 2 && T % 2 == 0);
+    let mut s = [0u128; T];
+    s[0] = p_w(w);
+    let mut i = 1;
+    while i < T {
+        s[i] = add(w, s[i - 1], q_w(w));
+        i += 1;
+    }
+    s
+}
+
+/// 4.3, third step: mix in the secret key, 3 max(t, c) times
+pub fn mix<const T: usize, const C: usize>(w: u32, mut s: [u128; T], mut l: [u128; C]) -> [u128; T] {
+    let (mut i, mut j) = (0usize, 0usize);
+    let (mut a, mut b) = (0u128, 0u128);
+    let n = 3 * if T > C { T } else { C };
+    let mut k = 0;
+    while k < n {
+        s[i] = rotl(w, add(w, add(w, s[i], a), b), 3);
+        a = s[i];
+        l[j] = rotl(w, add(w, add(w, l[j], a), b), add(w, a, b));
+        b = l[j];
+        i = (i + 1) % T;
+        j = (j + 1) % C;
+        k += 1;
+    }
+    s
+}
+
+/// key expansion: S[0..t-1], t = T = 2(r+1), from the b = key.len() key bytes; C = key_words(w, b)
+pub fn key_expansion<const T: usize, const C: usize>(w: u32, key: &[u8]) -> [u128; T] {
+    mix::<T, C>(w, init_s::<T>(w), key_to_words::<C>(w, key))
+}
+
+/// 4.1: A = A + S[0]; B = B + S[1]; for i = 1 to r: A = ((A xor B) <<< B) + S[2i]; B = ((B xor A) <<< A) + S[2i+1]
+pub fn encrypt_words<const T: usize>(w: u32, s: &[u128; T], a: u128, b: u128) -> (u128, u128) {
+    let r = T / 2 - 1;
+    let mut a = add(w, a, s[0]);
+    let mut b = add(w, b, s[1]);
+    let mut i = 1;
+    while i <= r {
+        a = add(w, rotl(w, a ^ b, b), s[2 * i]);
+        b = add(w, rotl(w, b ^ a, a), s[2 * i + 1]);
+        i += 1;
+    }
+    (a, b)
+}
+
+/// 4.2: for i = r downto 1: B = ((B - S[2i+1]) >>> A) xor A; A = ((A - S[2i]) >>> B) xor B;  B = B - S[1]; A = A - S[0]
+pub fn decrypt_words<const T: usize>(w: u32, s: &[u128; T], a: u128, b: u128) -> (u128, u128) {
+    let r = T / 2 - 1;
+    let (mut a, mut b) = (a, b);
+    let mut i = r;
+    while i >= 1 {
+        b = rotr(w, sub(w, b, s[2 * i + 1]), a) ^ a;
+        a = rotr(w, sub(w, a, s[2 * i]), b) ^ b;
+        i -= 1;
+    }
+    b = sub(w, b, s[1]);
+    a = sub(w, a, s[0]);
+    (a, b)
+}
+
+/// little-endian w-bit word from u = w/8 bytes
+pub fn word_from_le(w: u32, bytes: &[u8]) -> u128 {
+    let u = (w / 8) as usize;
+    let mut x = 0u128;
+    let mut i = u;
+    while i > 0 {
+        i -= 1;
+        x = (x << 8) | bytes[i] as u128;
+    }
+    x
+}
+pub fn word_to_le(w: u32, x: u128, out: &mut [u8]) {
+    let u = (w / 8) as usize;
+    let mut i = 0;
+    while i < u {
+        out[i] = (x >> (8 * i)) as u8;
+        i += 1;
+    }
+}
+
+/// RC5-w/r/b on bytes: block of 2u bytes (A first, little-endian words), r = T/2 - 1, b = key.len()
+pub fn encrypt<const T: usize, const C: usize>(w: u32, key: &[u8], block: &mut [u8]) {
+    let u = (w / 8) as usize;
+    let s = key_expansion::<T, C>(w, key);
+    let (a, b) = encrypt_words::<T>(w, &s, word_from_le(w, &block[..u]), word_from_le(w, &block[u..2 * u]));
+    word_to_le(w, a, &mut block[..u]);
+    word_to_le(w, b, &mut block[u..2 * u]);
+}
+pub fn decrypt<const T: usize, const C: usize>(w: u32, key: &[u8], block: &mut [u8]) {
+    let u = (w / 8) as usize;
+    let s = key_expansion::<T, C>(w, key);
+    let (a, b) = decrypt_words::<T>(w, &s, word_from_le(w, &block[..u]), word_from_le(w, &block[u..2 * u]));
+    word_to_le(w, a, &mut block[..u]);
+    word_to_le(w, b, &mut block[u..2 * u]);
+}
+
+#[cfg(test)]
+mod tests {
+    use super::*;
+
+    #[test]
+    fn magic_constants_as_printed_in_the_paper() {
+        // section 4.3: "P16 = b7e1, Q16 = 9e37, P32 = b7e15163, Q32 = 9e3779b9, P64 = b7e151628aed2a6b, Q64 = 9e3779b97f4a7c15"
+        assert_eq!(p_w(16), 0xb7e1);
+        assert_eq!(q_w(16), 0x9e37);
+        assert_eq!(p_w(32), 0xb7e15163);
+        assert_eq!(q_w(32), 0x9e3779b9);
+        assert_eq!(p_w(64), 0xb7e151628aed2a6b);
+        assert_eq!(q_w(64), 0x9e3779b97f4a7c15);
+        // by the same definition
+        assert_eq!(p_w(8), 0xb7);
+        assert_eq!(q_w(8), 0x9f);
+        assert_eq!(p_w(128), 0xb7e151628aed2a6abf7158809cf4f3c7);
+        assert_eq!(q_w(128), 0x9e3779b97f4a7c15f39cc0605cedc835);
+    }
+
+    /// e - 2 = sum_{k>=2} 1/k!, in 256-bit fixed point (4 limbs, most significant first): checks the typed expansion
+    #[test]
+    fn e_minus_2_expansion() {
+        let mut term = [1u64 << 63, 0, 0, 0]; // 1/2!
+        let mut sum = term;
+        let mut k = 3u128;
+        while k < 70 {
+            // term /= k
+            let mut rem = 0u128;
+            for limb in term.iter_mut() {
+                let cur = (rem << 64) | *limb as u128;
+                *limb = (cur / k) as u64;
+                rem = cur % k;
+            }
+            // sum += term
+            let mut carry = 0u128;
+            for i in (0..4).rev() {
+                let t = sum[i] as u128 + term[i] as u128 + carry;
+                sum[i] = t as u64;
+                carry = t >> 64;
+            }
+            k += 1;
+        }
+        assert_eq!([sum[0], sum[1]], [E_MINUS_2[0], E_MINUS_2[1]]);
+        // third limb up to truncation error of the series (< 70 ulp of the fourth limb)
+        assert_eq!(sum[2], E_MINUS_2[2]);
+    }
+
+    /// x = phi - 1 is the positive root of x^2 + x - 1, so X = floor(x 2^128) is characterised by
+    /// X^2 + X 2^128 < 2^256 <= (X+1)^2 + (X+1) 2^128: checks the first 128 bits of the typed expansion
+    #[test]
+    fn phi_minus_1_expansion() {
+        const M: u128 = 0xffff_ffff_ffff_ffff;
+        fn mul_wide(a: u128, b: u128) -> (u128, u128) {
+            let (ah, al, bh, bl) = (a >> 64, a & M, b >> 64, b & M);
+            let (ll, lh, hl, hh) = (al * bl, al * bh, ah * bl, ah * bh);
+            let mid = (ll >> 64) + (lh & M) + (hl & M);
+            ((hh + (lh >> 64) + (hl >> 64) + (mid >> 64)), (ll & M) | ((mid & M) << 64))
+        }
+        // x^2 + x 2^128 < 2^256  <=>  hi(x^2) + x does not overflow 128 bits
+        fn below_one(x: u128) -> bool { mul_wide(x, x).0.checked_add(x).is_some() }
+        let x = ((PHI_MINUS_1[0] as u128) << 64) | PHI_MINUS_1[1] as u128;
+        assert!(below_one(x));
+        assert!(!below_one(x + 1));
+    }
+
+    fn hex<const N: usize>(s: &str) -> [u8; N] {
+        let b = s.as_bytes();
+        let mut out = [0u8; N];
+        let mut n = 0;
+        let mut i = 0;
+        while i < b.len() {
+            if b[i] == b' ' { i += 1; continue; }
+            let hi = (b[i] as char).to_digit(16).unwrap() as u8;
+            let lo = (b[i + 1] as char).to_digit(16).unwrap() as u8;
+            out[n] = hi << 4 | lo;
+            n += 1;
+            i += 2;
+        }
+        assert_eq!(n, N);
+        out
+    }
+
+    /// Rivest's paper, section 5 ("Examples"): RC5-32/12/16, words printed as A B
+    #[test]
+    fn paper_examples_rc5_32_12_16() {
+        let ex: [(&str, u32, u32, u32, u32); 5] = [
+            ("00 00 00 00 00 00 00 00 00 00 00 00 00 00 00 00", 0x00000000, 0x00000000, 0xEEDBA521, 0x6D8F4B15),
+            ("91 5F 46 19 BE 41 B2 51 63 55 A5 01 10 A9 CE 91", 0xEEDBA521, 0x6D8F4B15, 0xAC13C0F7, 0x52892B5B),
+            ("78 33 48 E7 5A EB 0F 2F D7 B1 69 BB 8D C1 67 87", 0xAC13C0F7, 0x52892B5B, 0xB7B3422F, 0x92FC6903),
+            ("DC 49 DB 13 75 A5 58 4F 64 85 B4 13 B5 F1 2B AF", 0xB7B3422F, 0x92FC6903, 0xB278C165, 0xCC97D184),
+            ("52 69 F1 49 D4 1B A0 15 24 97 57 4D 7F 15 31 25", 0xB278C165, 0xCC97D184, 0x15E444EB, 0x249831DA),
+        ];
+        for (k, pa, pb, ca, cb) in ex {
+            let key: [u8; 16] = hex(k);
+            let s = key_expansion::<26, 4>(32, &key);
+            assert_eq!(encrypt_words(32, &s, pa as u128, pb as u128), (ca as u128, cb as u128));
+            assert_eq!(decrypt_words(32, &s, ca as u128, cb as u128), (pa as u128, pb as u128));
+        }
+    }
+
+    /// draft-krovetz-rc6-rc5-vectors-00 (the vectors also used by /repo/rc5/tests): one per word size
+    #[test]
+    fn krovetz_vectors() {
+        fn run<const T: usize, const C: usize, const KB: usize, const BB: usize>(w: u32, k: &str, p: &str, c: &str) {
+            let key: [u8; KB] = hex(k);
+            let pt: [u8; BB] = hex(p);
+            let ct: [u8; BB] = hex(c);
+            let mut blk = pt;
+            encrypt::<T, C>(w, &key, &mut blk);
+            assert_eq!(blk, ct);
+            decrypt::<T, C>(w, &key, &mut blk);
+            assert_eq!(blk, pt);
+        }
+        run::<26, 4, 4, 2>(8, "00010203", "0001", "212A");
+        run::<34, 4, 8, 4>(16, "0001020304050607", "00010203", "23A8D72E");
+        run::<26, 4, 16, 8>(32, "000102030405060708090A0B0C0D0E0F", "0001020304050607", "C8D3B3C486700CFA");
+        run::<34, 4, 16, 8>(32, "000102030405060708090A0B0C0D0E0F", "0001020304050607", "3E2E95357027D896");
+        run::<50, 3, 24, 16>(64, "000102030405060708090A0B0C0D0E0F1011121314151617", "000102030405060708090A0B0C0D0E0F", "A46772820EDBCE0235ABEA32AE7178DA");
+        run::<58, 2, 32, 32>(128, "000102030405060708090A0B0C0D0E0F101112131415161718191A1B1C1D1E1F",
+            "000102030405060708090A0B0C0D0E0F101112131415161718191A1B1C1D1E1F",
+            "ECA5910921A4F4CFDD7AD7AD20A1FCBA068EC7A7CD752D68FE914B7FE180B440");
+    }
+
+    /// b = 0 is a legal key length (c = 1, L[0] = 0); r = 0 is legal (only the two additions); round trips
+    #[test]
+    fn degenerate_parameters() {
+        let s = key_expansion::<26, 1>(32, &[]);
+        let (a, b) = encrypt_words(32, &s, 1, 2);
+        assert_eq!(decrypt_words(32, &s, a, b), (1, 2));
+        let s0 = key_expansion::<2, 4>(32, &[0u8; 16]);
+        assert_eq!(encrypt_words(32, &s0, 0, 0), (s0[0], s0[1]));
+        // key length not a multiple of the word size: the last word is zero-padded at the top
+        let l = key_to_words::<2>(32, &[1, 2, 3, 4, 5]);
+        assert_eq!(l, [0x04030201, 0x05]);
+        assert_eq!(key_words(8, 0), 1);
+        assert_eq!(key_words(32, 255), 64);
+        assert_eq!(key_words(128, 17), 2);
+    }
+}
